@@ -86,6 +86,8 @@ def _deep(n):
     return x
 
 
+# integers of more digits than the interpreter converts to text by default (sys.get_int_max_str_digits() == 4300)
+HOSTILE_INSTANCES += [10 ** 5000, [10 ** 4400, 1], {"a": -(10 ** 4301)}]
 HOSTILE_INSTANCES.append(_deep(12))
 HOSTILE_INSTANCES.append([_deep(5), _deep(6), {"b": _deep(4)}])
 INSTANCES = V.ALL_REPS + HOSTILE_INSTANCES
@@ -247,6 +249,10 @@ def classify(draft, schema, exc):
     name = type(exc).__name__
     if name == "RecursionError" and not has_inplace_ref_cycle(draft, schema):
         schema = _as_the_library_keys_them(schema)
+    if name == "ValueError" and "integer string conversion" in str(exc) and "Exceeds the limit" in str(exc):
+        # the interpreter refuses to turn an integer of more than sys.get_int_max_str_digits() digits into text, and
+        # every error message is built with %r of the instance / keyword value
+        return "integer-beyond-the-interpreters-str-conversion-limit"
     if name == "ValueError":
         fr = _frames(exc)
         names = {n for f, n in fr}
